@@ -348,9 +348,10 @@ def c02(tier, seed):
     _star_big(out, "C02", seed, thorough)
     out.add_vh(run_vh(["secret-scan", "--seed", seed, "--n", 200 if thorough else 40]), only={"C02"})
     _sharded_trace(out, "C02", "Trace_Shamir", "Trace_Shamir.cfg",
-                   lambda k, tr: ["cert-record", "--out", tr, "--seed", seed + k, "--groups", 8 if thorough else 5,
-                                  "--maxt", 64 if thorough else 16],
-                   4 if thorough else 1, "polynomial certificate")
+                   lambda k, tr: (["cert-record", "--out", tr, "--seed", seed + k, "--groups", 64, "--maxt", 40 if thorough else 18, "--sweep"]
+                                  if k == 0 else
+                                  ["cert-record", "--out", tr, "--seed", seed + k, "--groups", 8, "--maxt", 64 if thorough else 24]),
+                   4 if thorough else 2, "polynomial certificate")
     return out
 
 
@@ -424,7 +425,7 @@ def c04(tier, seed):
         write_ndjson(lp, res.lines.get("DERIVE", []))
         if len(res.lines.get("DERIVE", [])) < 100:
             raise ToolError("MC_Derive emitted too few triples")
-        out.add_vh(run_vh(["derive-replay", "--lines", lp, "--seed", seed, "--vals", 8 if thorough else 4,
+        out.add_vh(run_vh(["derive-replay", "--lines", lp, "--seed", seed, "--vals", 10,
                            "--thrmaps", 5 if thorough else 4, "--clients", 16 if thorough else 3], timeout=3000), only={"C04"})
     return out
 
